@@ -11,7 +11,7 @@ def spell(name, k):
 # generator
 # ---------------------------------------------------------------------------
 
-def gen_project(g, tier, style='general'):
+def gen_project(g, tier, style='general', bindings=False):
     """
     Units (modules, free subroutines) are drawn in a global order; a unit only
     depends on earlier units (valid Fortran: no circular module dependencies),
@@ -90,6 +90,14 @@ def gen_project(g, tier, style='general'):
             imods = [m for m in earlier_mods if m.get('iface')] + ([mod] if mod and mod.get('iface') else [])
             if imods and g.flip('calliface', 1, 3):
                 P['calls_iface'].append(g.pick('imod', imods)['name'])
+            P['calls_bound'] = []
+            bmods = [m for m in earlier_mods if m.get('bindings')]
+            if bindings and bmods and g.flip('callbound', 1, 3):
+                bm = g.pick('bmod', bmods)
+                b = g.pick('bbind', bm['bindings'])
+                if [bm['name'], b['type']] not in P['uses_type']:
+                    P['uses_type'].append([bm['name'], b['type']])
+                P['calls_bound'].append([bm['name'], b['type'], b['name']])
             P['ext_mod'] = None
             if g.flip('extmod', 1, 8):
                 P['ext_mod'] = len(externals)
@@ -114,6 +122,24 @@ def gen_project(g, tier, style='general'):
                 procs[q]['prefix'] = g.pick('prefix', ['recursive', 'pure recursive', 'recursive pure',
                                                         'RECURSIVE', 'impure recursive'])
             mod['mutual'] = [pa, pb]
+        if mod and bindings and style == 'general' and mod['types'] and g.flip('hasbindings', 1, 2):
+            # type-bound procedures: '<type>%<binding>' -> module procedure with a passed-object argument
+            mod['bindings'] = []
+            mod['bprocs'] = []
+            for j in range(g.randint('nbind', 1, 2)):
+                bp = f'b{k}_{j}'
+                cands = earlier_procs + list(mod['procs'])
+                calls = []
+                for q in g.sample('bcallees', cands, g.randint('nbcalls', 0, min(2, len(cands)))):
+                    Q = procs[q]
+                    via = 'plain' if (Q['mod'] is None or Q['mod'] == mname) else 'only'
+                    calls.append({'to': q, 'via': via, 'spell': g.choose('bcspell', 3)})
+                procs[bp] = {'mod': mname, 'calls': calls, 'recursive': False, 'uses_var': [], 'uses_type': [],
+                             'uses_param': [], 'external': None, 'ext_mod': None, 'calls_iface': [],
+                             'calls_bound': [], 'bound': mod['types'][0], 'iproc': True}
+                mod['bprocs'].append(bp)
+                mod['bindings'].append({'type': mod['types'][0], 'name': bp if g.flip('samename', 1, 3) else f'do{k}_{j}',
+                                        'to': bp})
         if mod:
             if mod['iface']:
                 for ip in mod['iface']['procs']:
@@ -187,8 +213,32 @@ def gen_config(g, proj, tier, patterns=False):
             unq = [x['to'] for x in proj['procs'][n]['calls'] if x['via'] == 'unqual']
             tgt = g.pick('tgtunq', unq) if unq and g.flip('preferunq', 1, 2) else g.pick('tgt', callees)
             c[kind] = [entry_spelling(g, proj, tgt, kind, patterns)]
+        if kind in ('ignore', 'block', 'disable') and proj['procs'][n].get('calls_bound') and g.flip('tgtbound', 1, 2):
+            # name a type-bound procedure the routine calls, in one of the documented spellings
+            m, t, b = g.pick('tgtb', proj['procs'][n]['calls_bound'])
+            forms = [f'{t}%{b}', f'{m}#{t}%{b}', t]
+            if patterns and kind != 'ignore':
+                forms += [f'*%{b}', f'{t}%*']
+            c[kind] = [g.pick('bform', forms)]
         if c:
             routines[qualify(proj, n, g.flip('nq', 1, 4))] = c
+    # routines that call a type-bound procedure: name the binding (or its type) in one of their lists
+    for n in names:
+        cb = proj['procs'][n].get('calls_bound')
+        if not cb or not g.flip('cfgbound', 1, 3):
+            continue
+        key = next((k for k in routines if k.split('#')[-1] == n), None)
+        if key is None:
+            key = qualify(proj, n, g.flip('bnq', 1, 4))
+            routines[key] = {}
+        kind = g.pick('bkind', ['disable', 'block', 'ignore'])
+        if kind in routines[key]:
+            continue
+        m, t, b = g.pick('btgt', cb)
+        forms = [f'{t}%{b}', f'{m}#{t}%{b}', t, t]
+        if patterns and kind != 'ignore':
+            forms += [f'*%{b}', f'{t}%*']
+        routines[key][kind] = [g.pick('bform2', forms)]
     return {'seeds': [qualify(proj, s, False) if g.flip('sq', 3, 4) else qualify(proj, s, True) for s in seeds],
             'default': default, 'routines': routines}
 
@@ -213,7 +263,7 @@ def emit_proc(proj, p, ind):
     P = proj['procs'][p]
     L = []
     rec = (P.get('prefix') or 'recursive') + ' ' if (P['recursive'] or P.get('prefix')) else ''
-    L.append(f'{ind}{rec}subroutine {ename(proj, p)}(x)')
+    L.append(f'{ind}{rec}subroutine {ename(proj, p)}({"this, " if P.get("bound") else ""}x)')
     uses = {}
     unq = []
     for c in P['calls']:
@@ -251,6 +301,8 @@ def emit_proc(proj, p, ind):
     L.append(f'{ind}  implicit none')
     if P.get('cinclude'):
         L.append(f'#include "ext_{p}.intfb.h"')
+    if P.get('bound'):
+        L.append(f'{ind}  class({P["bound"]}), intent(inout) :: this')
     L.append(f'{ind}  real, intent(inout) :: x')
     for i, (m, t) in enumerate(P['uses_type']):
         L.append(f'{ind}  type({t}) :: tv{i}')
@@ -265,6 +317,8 @@ def emit_proc(proj, p, ind):
         L.append(f'{ind}  call {spell(nm, c["spell"])}(x)')
     for m in P.get('calls_iface', []):
         L.append(f'{ind}  call gen{m_index(proj, m)}(x)')
+    for m, t, b in P.get('calls_bound', []):
+        L.append(f'{ind}  call tv{P["uses_type"].index([m, t])}%{b}(x)')
     if P.get('ext_mod') is not None:
         L.append(f'{ind}  call mp{P["ext_mod"]}(x)')
     if P['external']:
@@ -289,12 +343,20 @@ def emit_unit(proj, kind, name):
         L.append(f'  use {um}, only: {usym}')
     L += ['  implicit none', f'  integer, parameter :: np{i} = {i + 1}', f'  real :: gv{i} = {i}.0']
     for t in m['types']:
-        L += [f'  type {t}', '    real :: val', f'  end type {t}']
+        L += [f'  type {t}', '    real :: val']
+        bl = [b for b in m.get('bindings', []) if b['type'] == t]
+        if bl:
+            L.append('  contains')
+            for b in bl:
+                L.append(f'    procedure :: {b["name"]}' + (f' => {b["to"]}' if b['name'] != b['to'] else ''))
+        L.append(f'  end type {t}')
     if m.get('iface'):
         L += [f'  interface {m["iface"]["name"]}', f'    module procedure {", ".join(m["iface"]["procs"])}',
               f'  end interface {m["iface"]["name"]}']
     L.append('contains')
     for p in m['procs']:
+        L += emit_proc(proj, p, '  ')
+    for p in m.get('bprocs', []):
         L += emit_proc(proj, p, '  ')
     if m.get('iface'):
         r, ii = m['iface']['procs']
@@ -338,13 +400,18 @@ def matches_with_parents(name, keys, patterns=True):
     import fnmatch  # pylint: disable=import-outside-toplevel
     name = name.lower()
     scope = name.split('#', 1)[0] if '#' in name else ''
-    if matches(name, keys) or (bool(scope) and any(k.lower() == scope for k in keys or ())):
+    local = name.split('#', 1)[1] if '#' in name else name
+    forms = {name, local} | ({scope} if scope else set())
+    if '%' in local:
+        # a type-bound procedure also matches through its type: '<type>', '<scope>#<type>'
+        tname = local.split('%', 1)[0]
+        forms |= {tname, f'{scope}#{tname}'}
+    keys = [k.lower() for k in keys or ()]
+    if any(k in forms for k in keys):
         return True
     if not patterns:
         return False
-    local = name.split('#', 1)[1] if '#' in name else name
-    forms = {name, local} | ({scope} if scope else set())
-    return any(fnmatch.fnmatchcase(f, k.lower()) for k in keys or () for f in forms)
+    return any(fnmatch.fnmatchcase(f, k) for k in keys for f in forms)
 
 
 def entry_spelling(g, proj, tgt, kind, patterns=False):
@@ -409,6 +476,10 @@ def raw_children(proj, p):
         out.append((item_name(proj, c['to']), 'proc'))
     for m in P.get('calls_iface', []):
         out.append((f'{m}#gen{m_index(proj, m)}', 'interface'))
+    if P.get('bound'):
+        out.append((f'{P["mod"]}#{P["bound"]}', 'type'))      # class(<type>) :: this
+    for m, t, b in P.get('calls_bound', []):
+        out.append((f'{m}#{t}%{b}', 'binding'))
     if P.get('ext_mod') is not None:
         out.append((f'missing{P["ext_mod"]}_mod', 'external_mod'))
         out.append((f'missing{P["ext_mod"]}_mod#mp{P["ext_mod"]}', 'external_mod'))
@@ -435,7 +506,7 @@ def reference_graph(proj, cfg):
             queue.append(cands[0])
     while queue:
         n = queue.pop(0)
-        if nodes[n] not in ('proc', 'interface'):
+        if nodes[n] not in ('proc', 'interface', 'binding'):
             continue
         c = item_config(cfg, n)
         if not c.get('expand', True):
@@ -444,6 +515,12 @@ def reference_graph(proj, cfg):
             mname = n.split('#')[0]
             mod = next(m for m in proj['mods'] if m['name'] == mname)
             children = [(f'{mname}#{ip}', 'proc') for ip in mod['iface']['procs']]
+        elif nodes[n] == 'binding':
+            mname, rest = n.split('#')
+            tname, bname = rest.split('%')
+            mod = next(m for m in proj['mods'] if m['name'] == mname)
+            b = next(b for b in mod['bindings'] if b['type'] == tname and b['name'] == bname)
+            children = [(f'{mname}#{b["to"]}', 'proc')]
         else:
             children = raw_children(proj, by_item[n])
         for child, kind in children:
